@@ -14,7 +14,7 @@ structure GInvN (W : Colls) (seen : List (Req × Forest)) (s : AggState) : Prop 
   ninv : NInv s.agg.imports s.agg.redirects (seen.map (·.1.1))
 
 theorem ginvN_empty (W : Colls) (hfresh : ∀ C, W.mem C → C.uid ≠ 0) : GInvN W [] Agg.empty := by
-  refine ⟨⟨⟨⟨?_, ?_, ?_⟩, cinv_nil W _ hfresh, rfl⟩, rfl, ?_, ?_, ?_, ?_, ?_, ?_, ?_⟩, ninv_empty⟩
+  refine ⟨⟨⟨⟨?_, ?_, ?_⟩, cinv_nil W _ hfresh, rfl⟩, ⟨rfl, rfl⟩, ?_, ?_, ?_, ?_, ?_, ?_, ?_⟩, ninv_empty⟩
   · intro C _
     refine ⟨?_, ?_⟩
     · intro d v' h; cases h
@@ -245,7 +245,10 @@ def srcOKB (types : Types) : Nat → Nat → Bool
         si.exports.all fun x => match x.2 with
           | .func _ => true
           | .value _ => true
+          | .type (.func _) => true
+          | .type (.value _) => true
           | .instance t => srcOKB types d t
+          | .type (.interface t) => srcOKB types d t
           | _ => false
     | none => false
 
@@ -265,8 +268,14 @@ theorem srcOK_of_srcOKB (types : Types) : ∀ d i, srcOKB types d i = true → S
       | value v => exact .inl (by simp [LeafK])
       | «instance» t =>
         rw [hk] at this
-        exact .inr ⟨t, rfl, srcOK_of_srcOKB types d t this⟩
-      | type _ => rw [hk] at this; cases this
+        exact .inr ⟨false, t, rfl, srcOK_of_srcOKB types d t this⟩
+      | type ty =>
+        rw [hk] at this
+        cases ty with
+        | func _ => exact .inl (by simp [LeafK])
+        | value _ => exact .inl (by simp [LeafK])
+        | interface t => exact .inr ⟨true, t, rfl, srcOK_of_srcOKB types d t this⟩
+        | _ => cases this
       | component _ => rw [hk] at this; cases this
       | module _ => rw [hk] at this; cases this
 
